@@ -9,9 +9,30 @@ META = dict(
     technique="Coq proof (tiling invariant of the file + refinement of the record table / free maps to a finite map index -> bytes) "
               "+ differential correspondence of the extracted model with the real Storage<D> on MemoryStorage, FileStorage and FileStorageMemoryMapped "
               "+ direct shadow-map oracle on the implementation",
-    level_text="PLACEHOLDER",
+    level_text="Machine-checked theorems (coq/Props/C04.v, all FULL, none partial) about an executable model of storage.rs / storage_records.rs "
+               "(every public operation of Storage<D>, the record table with its free-index list, both free maps with the exact take_free / take_free_after / "
+               "mark_free_compact rules, read_records, optimize_storage), generic in the byte store: "
+               "C04_tiles_init + C04_tiles_preserved (after EVERY history of insert, insert-at incl. beyond the end, replace, resize, move, remove, optimize, reopen by drop+open "
+               "and by backup+open, nested transactions and reads the file is the version record followed by a gapless sequence of regions whose headers match the table, "
+               "free regions are exactly the entries of both free maps, the free-index list is duplicate-free and disjoint from the live indexes); "
+               "C04_refines_map / C04_step_refines (for every operation list every observation — returned indexes, value reads at any offset and size, sizes, error kinds, "
+               "transaction ids — is what the abstract map index->bytes allows; removed indexes are unreadable; a file-backed storage dropped with an open transaction comes back "
+               "with the map at the last point with no transaction open; a history can end early only by a u64-overflow panic, never by a byte-store call outside pos<=len); "
+               "C04_optimize_tight (after optimize the file is exactly the live regions: len = 24 + sum(16+size), both free maps empty, values unchanged); "
+               "C04_reopen_preserves (loading the content of a tiled storage succeeds and yields the same regions). "
+               "Storage level of C05/C06, pinned in the same file: C05_storage_maintenance, C06_instances_lawful (literal models of MemoryStorage / FileStorage / "
+               "FileStorageMemoryMapped obey the byte-store laws under pos<=len), C06_storage_parametric + C06_backends_agree (Storage run over the three back-ends from an empty "
+               "store yields the observations of the canonical model for every operation list), C06_mem_file_agree. "
+               "Tie to /repo on every run: the same generated operation lists are executed on the real Storage<MemoryStorage>, Storage<FileStorage>, "
+               "Storage<FileStorageMemoryMapped> (through agdb::verif::VStorage) and on the extracted model; after EVERY operation the result / error kind, the file length and every "
+               "readable index with its bytes are compared line by line; independently a shadow map kept by the harness is the direct oracle on the implementation.",
     design_ref="DESIGN.md §5 C04 (storage level of C05, C06)",
-    level_note="PLACEHOLDER",
+    level_note="Trusted: Coq kernel, extraction (ExtrOcamlBasic), OCaml driver, Rust harness/generators and its shadow map. The theorems are about the model; the tie to the code is "
+               "differential execution (exact: returned indexes, file length after each step, error kinds, all live bytes) on the three back-ends. "
+               "Modelling decisions: u64 arithmetic is unbounded N with the debug-build overflow panics as outcome `panic` (requests beyond 2^64 bytes; not generated); "
+               "a byte-store call outside the contract the back-ends agree on (write starting beyond the end, read beyond the end) is outcome `fault` and proved unreachable; "
+               "the rollback of an open transaction when a file-backed storage is dropped is taken from C01 (content at the last flush); the dead field free_size is not modelled. "
+               "replace_with_bytes on a missing index leaves its transaction open (observable through transaction ids; reproduced by model and specification; its consequences are C32's subject).",
 )
 
 
